@@ -89,17 +89,31 @@ def work(states, extra):
     return res
 
 
-def run(v, tier):
+def loaders_of(tier):
+    return ['SafeLoader', 'CSafeLoader'] if tier == 'quick' else ['SafeLoader', 'CSafeLoader', 'Loader', 'CLoader', 'BaseLoader']
+
+
+def run_tlc(tier, workers=16):
     consts = {'MaxEvents': 5 if tier == 'quick' else 6, 'MaxDepth': 2, 'MaxPath': 2,
               'NodeChecks': '{"any", "q", "m"}', 'IndexChecks': '{"None", "True", "a", "0"}' if tier == 'quick' else '{"None", "True", "False", "a", "b", "0", "1"}',
               'KindsReg': '{"any", "s", "m"}' if tier == 'quick' else '{"any", "s", "q", "m"}'}
-    r = tlc.run('PathResolver', cfg='MC_PathResolver.cfg', dump=True, tag='C10_path', timeout=3000, coverage=False, constants=consts)
+    r = tlc.run('PathResolver', cfg='MC_PathResolver.cfg', dump=True, tag='C10_path', timeout=3000, coverage=False,
+                constants=consts, workers=workers, heap='2g' if tier == 'quick' else '4g')
     if r.violated:
         print(r.out[-3000:])
         raise SystemExit('machinery failure: PathResolver.tla violates %s (L does not refine H in the model)' % r.violated)
     tlc.require_ok(r, 'PathResolver')
-    loaders = ['SafeLoader', 'CSafeLoader'] if tier == 'quick' else ['SafeLoader', 'CSafeLoader', 'Loader', 'CLoader', 'BaseLoader']
-    out = mbt.pmap(work, r.dump, {'loaders': loaders})
+    return r
+
+
+def submit(pool, r, tier, chunks=48):
+    """replay tasks for every part of the dump, on the caller's pool"""
+    extra = {'loaders': loaders_of(tier)}
+    return [pool.apply_async(mbt._run, ((work, r.dump, a, b, extra),)) for a, b in mbt.split_dump(r.dump, chunks)]
+
+
+def collect(v, tier, r, out):
+    loaders = loaders_of(tier)
     os.remove(r.dump)
     if sum(o['n'] for o in out) != r.distinct:
         raise SystemExit('machinery failure: path resolver dump/state count mismatch')
@@ -112,3 +126,11 @@ def run(v, tier):
                          'index_checks': sorted({str(x[1]) for x in b['path']})}, b)
     return {'states': r.distinct, 'transitions': r.generated, 'traces': tested * len(loaders),
             'samples': [s for o in out for s in o['samples']][:2], 'applies': sum(o['applies'] for o in out)}
+
+
+def run(v, tier):
+    import multiprocessing as mp
+    r = run_tlc(tier)
+    with mp.Pool(16) as pool:
+        out = [a.get() for a in submit(pool, r, tier, 64)]
+    return collect(v, tier, r, out)
